@@ -79,7 +79,10 @@ def generate(rng, tier, idx):
             # the line with multi-byte characters padded to just under the limit counted in characters
             faults.append(['long-line-mb', rng.randrange(0, 1000), rng.choice([6, 7])])
         return {'prop': ID, 'mode': 'real', 'order_key': '0', 'payload': payload, 'final_nl': rng.random() < 0.85,
-                'faults': faults, 'not_dash_escaped': rng.random() < 0.15, 'verify': True}
+                'faults': faults, 'not_dash_escaped': rng.random() < 0.15, 'verify': True,
+                # history on one OpenPGP environment object: it has verified the genuine message before it is handed
+                # the altered one (`gemato verify A B`, a long-running caller)
+                'prime': rng.random() < 0.4}
     if rng.random() < 0.75:
         seq = template(rng)
     else:
@@ -465,6 +468,9 @@ def exec_real(sc):
     try:
         env.import_key(io.BytesIO(GS.keydata('signer.pub.asc')))
         proxy = RecordingProxy(env)
+        if sc.get('prime'):
+            m0 = gemato.manifest.ManifestFile()
+            call(lambda: m0.load(io.StringIO(signed), verify_openpgp=True, openpgp_env=env))
         m = gemato.manifest.ManifestFile()
         r = call(lambda: m.load(io.StringIO(text), verify_openpgp=True, openpgp_env=proxy))
     finally:
